@@ -1,9 +1,9 @@
 #!/bin/bash
 # usage: verify_seeded.sh <PROP> <n>   -- re-confirms a sub-agent's mutation in its scratch worktree /tmp/mut/<PROP>:
 # patch applies, suite passes with it (modulo known failing/flaky tests), demo fails with it and passes without.
-P=$1; N=$2; W=/tmp/mut/$P; O=$W/out/mut$N
+P=$1; N=$2; W=${MUTROOT:-/tmp/mut}/$P; O=$W/out/mut$N
 cd $W || exit 2
-git checkout -q -- . ; rm -f tests/demo.rs
+git checkout -q -- . ; rm -f tests/demo.rs; [ -n "${BASE:-}" ] && git checkout -q --detach $BASE
 git apply --check $O/patch.diff || { echo "$P mut$N: PATCH DOES NOT APPLY"; exit 1; }
 cp $O/demo.rs tests/demo.rs
 echo "== $P mut$N: demo WITHOUT mutation"
@@ -14,5 +14,5 @@ for i in 1 2; do timeout 300 cargo test --offline --test demo 2>&1 | grep -E "^t
 rm -f tests/demo.rs
 echo "== $P mut$N: suite WITH mutation"
 timeout 900 cargo nextest run --workspace --no-fail-fast --test-threads 8 --offline 2>&1 | grep -E "Summary|^\s+(FAIL|TIMEOUT)" | sort | uniq
-git checkout -q -- . ; rm -f tests/demo.rs
+git checkout -q -- . ; rm -f tests/demo.rs; [ -n "${BASE:-}" ] && git checkout -q --detach $BASE
 echo "== $P mut$N: done"
